@@ -235,6 +235,25 @@ func genVest(g *Gen, n int) {
 			}
 			g.count("shape/long-vesting-type")
 		case 3:
+			if g.chance(0.5) {
+				// directed shape (D38): an owner who spells its address in upper case. The pool is created (and
+				// stored under the canonical spelling); at lock end the same spelling is refused by withdraw-all,
+				// by the pool query and by a pool send - the lower-case spelling works
+				o := vaddr(12)
+				up := strings.ToUpper(o) + ":1"
+				g.emit("v.fund %s [%s=%s]", o, den, "1000000")
+				d := g.pickI(sec, 60*sec)
+				g.emit("v.createPool %s cap %d %d %s", up, 1000+g.intn(5000), d, vts[0])
+				g.emit("v.q.pools %s", o)
+				now += d
+				g.emit("v.time %d", now)
+				g.emit("v.q.pools %s", strings.ToUpper(o))
+				fresh++
+				g.emit("v.send %s %s cap 1 1", up, atok(vaddr(fresh)))
+				g.emit("v.withdraw %s", up)
+				g.emit("v.withdraw %s", atok(o))
+				g.count("shape/upper-case-owner")
+			}
 			// lock ends beyond what fits into int64 nanoseconds since 1970 (year 2262): a valid
 			// duration of 236..292 years; nothing may be withdrawable before
 			o := vaddr(8)
